@@ -83,7 +83,7 @@ Qed.
 Lemma loops_valid_fixed : forall k,
   loops_valid fixed (visits k)
   = Some (existsb (has_attr LO) (k_body k) && existsb (has_attr LI) (k_body k)
-          && forallb loops_ok (k_body k) && nesting_ok (k_body k)).
+          && forallb loops_ok (k_body k) && (nesting_ok (k_body k) && depth_rule (k_body k))).
 Proof.
   intros k. unfold loops_valid.
   pose proof (outerLoops_exists (visits k)) as HO. rewrite exists_attr_visits in HO.
@@ -106,7 +106,8 @@ Proof.
   destruct (existsb (has_attr LO) (k_body k)); simpl; [|reflexivity].
   destruct (existsb (has_attr LI) (k_body k)); simpl; [|reflexivity].
   destruct (forallb loops_ok (k_body k)); simpl; [|reflexivity].
-  destruct (nesting_ok (k_body k)); simpl; reflexivity.
+  destruct (nesting_ok (k_body k)); simpl; [|reflexivity].
+  destruct (depth_rule (k_body k)); simpl; reflexivity.
 Qed.
 
 Lemma all_kernels_fixed : forall ks, all_kernels fixed ks = Some (forallb rules_b ks).
@@ -133,19 +134,24 @@ Qed.
 
 Lemma rules_b_iff : forall k, rules_b k = true <-> Rules k.
 Proof.
-  intros k. unfold rules_b, Rules, nesting_ok.
+  intros k. unfold rules_b, Rules, nesting_ok, depth_rule.
   rewrite !andb_true_iff, !forallb_forall, !existsb_exists.
+  assert (Hd : forall sg, depth_sig_ok sg = true <-> count_attr LO sg <= 3 /\ count_attr LI sg <= 3).
+  { intros sg. unfold depth_sig_ok. rewrite andb_true_iff, !Nat.leb_le. tauto. }
   split.
-  - intros ((((((H1 & H2) & H3) & H4) & H5) & H6) & H7).
+  - intros (((((((H1 & H2) & H3) & H4) & H5) & Hdp) & H6) & H7).
     repeat split; auto.
     + destruct (k_ret k); congruence.
     + intros t Ht. apply top_ok_iff; auto.
       apply in_flat_map in Ht. destruct Ht as (s & _ & Ht). eapply tops_sigs_nonempty; eauto.
-  - intros (H1 & H2 & H3 & H4 & H5 & H6 & H7).
+    + now apply Hd, Hdp.
+    + now apply Hd, Hdp.
+  - intros (H1 & H2 & H3 & H4 & H5 & Hdp & H6 & H7).
     repeat split; auto.
     + now rewrite H1.
     + intros t Ht. apply top_ok_iff; auto.
       apply in_flat_map in Ht. destruct Ht as (s & _ & Ht). eapply tops_sigs_nonempty; eauto.
+    + intros sg Hsg. now apply Hd, Hdp.
 Qed.
 
 Theorem checker_iff_rules : forall k, kernelIsValid fixed k = Some true <-> Rules k.
